@@ -69,7 +69,8 @@ SERVER_CFGS = [
     {"name": "v13only", "versions": [13]},
     {"name": "protocols", "protocols": ["superchat", "chat"]},
 ]
-ONCONNECT = ["none", "proto-first", "proto-headers", "proto-notoffered", "deny", "raise"]
+ONCONNECT = ["none", "proto-first", "proto-headers", "proto-notoffered", "proto-notoffered-headers",
+             "deny", "raise"]
 
 TOKENS = [b"GET", b" ", b"/", b"HTTP/1.1", b"\r\n", b":", b"Host", b"Upgrade", b"\x00", b"\xff", b"\n"]
 
@@ -187,6 +188,9 @@ def server_endpoint(cfg, onconnect):
                 return (request.protocols[-1] if request.protocols else None, {"X-Test": "1"})
             if _k == "proto-notoffered":
                 return "zzz-not-offered"
+            if _k == "proto-notoffered-headers":
+                # the documented pair form (protocol, headers) with a protocol the client did not offer
+                return ("zzz-not-offered", {"X-Test": "1"})
             if _k == "deny":
                 raise ConnectionDeny(403, "denied by application")
             raise RuntimeError("application error in onConnect")
@@ -242,7 +246,7 @@ def check_server(ep, o, v, onconnect, stats):
         if "onOpen" in o["rec"]:
             bad.append(("onopen-without-open", str(o["rec"])))
     must_reject = v.v == "reject" or onconnect in ("deny", "raise")
-    if onconnect == "proto-notoffered" and v.v == "accept" and is_open:
+    if onconnect in ("proto-notoffered", "proto-notoffered-headers") and v.v == "accept" and is_open:
         pass  # judged above: the response may simply not carry the protocol
     if must_reject and v.v != "either":
         if is_open:
